@@ -16,7 +16,7 @@ var (
 	lvals    = []string{"1", "2"}
 	outKeys  = []string{"k1", "k2", "k3", "k4"}
 	vals     = []string{"v1", "v2", "v3"}
-	atomPool = []Atom{{Kind: "key"}, {Kind: "selects"}, {Kind: "selectsNE"}, {Kind: "label"}, {Kind: "nsIndex"},
+	atomPool = []Atom{{Kind: "key"}, {Kind: "selects"}, {Kind: "selectsNE"}, {Kind: "label"}, {Kind: "nsIndex"}, {Kind: "valIndex"},
 		{Kind: "generic", N: 0}, {Kind: "generic", N: 1}, {Kind: "generic", N: 2}}
 )
 
@@ -35,8 +35,9 @@ func genTransform(r *wire.Rng) Transform {
 		f := []Atom{wire.Pick(r, atomPool)}
 		if r.Chance(40, 100) {
 			b := wire.Pick(r, atomPool)
-			bad := b.Kind == f[0].Kind && b.Kind != "generic" ||
-				(b.Kind == "key" && f[0].Kind == "nsIndex") || (b.Kind == "nsIndex" && f[0].Kind == "key") ||
+			// krt allows one of key / index per fetch (key+index panics, a second index replaces the first)
+			pre := func(k string) bool { return k == "key" || k == "nsIndex" || k == "valIndex" }
+			bad := b.Kind == f[0].Kind && b.Kind != "generic" || (pre(b.Kind) && pre(f[0].Kind)) ||
 				(b.Kind == "generic" && f[0].Kind == "generic")
 			if !bad {
 				f = append(f, b)
@@ -452,7 +453,9 @@ func gen(stream string, seed uint64, n int, out string) {
 	defer w.Close()
 	root := wire.NewRng(seed*1000003 + uint64(len(stream)))
 	for i := 0; i < n; i++ {
-		if strings.HasPrefix(stream, "join") {
+		if strings.HasPrefix(stream, "mem") {
+			genMemCase(root.Fork(), i, w)
+		} else if strings.HasPrefix(stream, "join") {
 			genJoinCase(root.Fork(), i, stream, w)
 		} else {
 			genCase(root.Fork(), i, stream, w)
